@@ -49,6 +49,13 @@
    have been given EOF / closed.  ReportAtChannelClose is the variant TLC
    must reject.  run() with self-paced slow targets is in the end-to-end
    scenarios.
+   Full duplex (Duplex = TRUE): the reading side writes and queues its EOF
+   behind the peer's window before the packets arrive (sending state open /
+   data queued / eof_pending / eof), the peer starts reading at any later
+   point; DropWhileEofPending is the variant TLC must reject.  End to end:
+   a cat-like peer with windows 1-3, run(input=), communicate(input),
+   stdin=<file> with both streams read concurrently, write+EOF then
+   read()/readline loops.
 3. End-to-end: a real server handler writes and calls exit(); run()/wait()
    must return complete output whenever a status or signal is reported.
 """
@@ -80,6 +87,7 @@ BASE = dict(DTs='{"out"}', MaxLen=4, MaxErr=0, Marks='{}', MaxMarks=0,
             MaxBatch=2, MaxCalls=0, Proc='FALSE', Redir='FALSE', MaxRedir=1,
             Canon='FALSE', Readers='{}', EscapeFix='TRUE', StreamSample=0,
             SlowTgt='FALSE', ReportAtChannelClose='FALSE',
+            Duplex='FALSE', PeerWin=2, MaxLocal=3, DropWhileEofPending='FALSE',
             Policy='"any"', PrintAt=0, SearchBug='FALSE', CloseBug='FALSE',
             ResumeFix='TRUE', CollectFix='TRUE')
 DRAIN = dict(High=4, Low=1, Win=3, Sizes='{1, 2, 5}', MaxBuf=12, MaxOps=0,
@@ -219,6 +227,15 @@ def jobs_for(tier):
     J.append(Job('tab_exw', 'Stream', S(MaxLen=2 if q else 3, **exw),
                  ['ChunkIndependent', 'NothingLost', 'AllDataThenEOF'],
                  cases=True, workers=4, heap='6g'))
+    # full duplex: the reading side writes / queues its EOF behind the
+    # peer's window (PeerWin 2) before the packets arrive, the peer starts
+    # reading at any later point; the reader loops one kind of call
+    dup = dict(Policy='"rfl"', Canon='TRUE', Duplex='TRUE', DTs='{"out"}',
+               MaxErr=0, Windows='{1, 3}' if q else '{1, 2, 3}', Ns='{1}',
+               ReadAll='TRUE', MaxBatch=1, MaxCalls=30, PrintAt=60, **NL_ONLY)
+    J.append(Job('tab_dup', 'Stream', S(MaxLen=3 if q else 4, **dup),
+                 ['ChunkIndependent', 'NothingLost'], cases=True, workers=4,
+                 heap='6g'))
     # two read streams on one session, some of them left unread
     two_tab = dict(Policy='"two"', Canon='TRUE', Proc='TRUE', DTs='{"out", "err"}',
                    MaxErr=3, Windows='{1, 2, 3}', Ns='{1}', ReadAll='TRUE',
@@ -238,7 +255,7 @@ def jobs_for(tier):
                Ns='{0, 1, 2, 6}' if q else '{0, 1, 2, 3, 5, 6, 7}', **seps)
     n = 180 if q else 2500
     J.append(Job('sim_two', 'Stream', S(**dict(sim, DTs='{"out", "err"}',
-                                               MaxErr=2)),
+                                               MaxErr=2, Duplex='TRUE')),
                  ['ChunkIndependent', 'NothingLost'], cases=True, sim=n,
                  depth=26, workers=2))
     J.append(Job('sim_marks', 'Stream',
@@ -300,6 +317,10 @@ def jobs_for(tier):
                  S(MaxLen=2, ReportAtChannelClose='TRUE',
                    **dict(exw, Windows='{9}')),
                  ['ChunkIndependent'], expect='ChunkIndependent', workers=2))
+    J.append(Job('sens_drop_eof_pending', 'Stream',
+                 S(MaxLen=2, DropWhileEofPending='TRUE',
+                   **dict(dup, Windows='{3}')),
+                 ['NothingLost'], expect='NothingLost', workers=2))
     J.append(Job('sens_collect', 'Stream',
                  S(MaxLen=2, Windows='{1}', CollectFix='FALSE', **proc),
                  ['NothingLost'], expect='NothingLost', workers=2))
@@ -481,7 +502,7 @@ class Replayer:
 
     def one(self, world, case, idx):
         ctx = self.ctx
-        pure = world in ('tab_rfl9', 'tab_rfl2', 'tab_dfl', 'tab_marks',
+        pure = world in ('tab_rfl9', 'tab_rfl2', 'tab_dfl', 'tab_marks', 'tab_dup',
                          'sim_two', 'regress') and \
             not any(l[0] == 'call' and l[1] == 'w' for l in case[2])
         opts = dict(text=bool(idx % 2),
@@ -652,6 +673,10 @@ def do_replay_file(ctx, stream, path):
             for clause, kind, detail in stream.replay_stdin(h, rp['scenario']):
                 ctx.violation({'module': 'Redirect', 'clause': clause,
                                'source': kind}, detail, replay=rp)
+        elif rp['kind'] == 'duplex':
+            for clause, form, detail in stream.replay_duplex(h, rp['scenario']):
+                ctx.violation({'module': 'Duplex', 'clause': clause,
+                               'form': form}, detail, replay=rp)
         elif rp['kind'] == 'exit':
             for clause, mode, detail in stream.replay_exit(h, rp['scenario']):
                 ctx.violation({'module': 'ProcessExit', 'clause': clause,
@@ -697,6 +722,21 @@ def main(ctx):
                       sc['so'] + sc['se'] > 0)
         total += len(scs)
 
+        # ---- full duplex end to end (cat-like peer) ----
+        scs = stream.duplex_scenarios(ctx.tier)
+        for sc in scs:
+            for clause, form, detail in stream.replay_duplex(rp.h, sc):
+                ctx.violation({'module': 'Duplex', 'clause': clause,
+                               'form': form}, f'{detail}; scenario {sc}',
+                              replay={'kind': 'duplex', 'scenario': sc})
+            ctx.count('duplex:' + json.dumps(sc, sort_keys=True),
+                      sc['size'] > sc['swin'])
+        total += len(scs)
+
+        # ---- a reader that keeps reading over runs longer than the window
+        # (also exported to checks/c08.py) ----
+        total += stream.stream_reader_flow(ctx, quick, harness=rp.h)
+
         # ---- stdin redirections (sources) ----
         scs = stream.stdin_scenarios(ctx.tier)
         for sc in scs:
@@ -710,15 +750,15 @@ def main(ctx):
         total += len(scs)
 
         # ---- TLC generated cases ----
-        plan = [('tab_rfl9', 2300, 2), ('tab_rfl2', 1600, 2),
-                ('tab_dfl', 1200, 3),
-                ('tab_marks', 1200, 1),
-                ('tab_redA', 1300, 1), ('tab_redB', 400, 1),
-                ('tab_exw', 600, 1),
-                ('tab_two_out', 1200, 1), ('tab_two_both', 1000, 1),
+        plan = [('tab_rfl9', 2000, 2), ('tab_rfl2', 1400, 2),
+                ('tab_dfl', 1000, 3),
+                ('tab_marks', 1000, 1),
+                ('tab_redA', 1100, 1), ('tab_redB', 400, 1),
+                ('tab_exw', 600, 1), ('tab_dup', 800, 1),
+                ('tab_two_out', 1000, 1), ('tab_two_both', 800, 1),
                 ('tab_two_none', 300, 1)] + \
             ([] if quick else [('tab_two_err', 1400, 1)]) + [
-                ('sim_two', 1000, 1), ('sim_marks', 1000, 1),
+                ('sim_two', 800, 1), ('sim_marks', 800, 1),
                 ('sim_proc', 1200, 1), ('sim_redir', 1200, 1)]
         for world, cap, stride in plan:
             tw = time.time()
@@ -731,7 +771,7 @@ def main(ctx):
             cases = job.case_list
             ctx.require(len(cases) > 0, f'{world}: TLC produced no cases\n' +
                         res.output[-1500:])
-            if world == 'tab_exw':
+            if world in ('tab_exw', 'tab_dup'):
                 sel = select(cases, quick, ctx.seed, cap)
             elif world.startswith('tab_red'):
                 sel = select_red(cases, quick, ctx.seed, cap)
